@@ -196,6 +196,30 @@ theorem classifyAll_wf (lists : List Str) : ∀ (rows : List Cells) (n : Nat) (k
         · subst hp; exact classify_wf lists n r k hc
         · exact ih (n + 1) ks' hrest p hp
 
+theorem classifyNum_wf (lists : List Str) : ∀ (rows : List (Nat × Cells)) (ks : List (Nat × RowK)),
+    classifyNum lists rows = .ok ks → ∀ p ∈ ks, rowWf p.2 = true := by
+  intro rows
+  induction rows with
+  | nil => intro ks h; simp [classifyNum] at h; subst h; simp
+  | cons r rs ih =>
+    intro ks h
+    obtain ⟨n, r⟩ := r
+    simp only [classifyNum] at h
+    cases hc : classify lists n r with
+    | unsupported w => rw [hc] at h; simp at h
+    | row k =>
+      rw [hc] at h
+      cases hrest : classifyNum lists rs with
+      | error w => rw [hrest] at h; simp at h
+      | ok ks' =>
+        rw [hrest] at h
+        simp at h; subst h
+        intro p hp
+        simp only [List.mem_cons] at hp
+        rcases hp with hp | hp
+        · subst hp; exact classify_wf lists n r k hc
+        · exact ih ks' hrest p hp
+
 theorem metaKids_wf (rows : List Cells) (settings : Cells) :
     wfL ((metaKids rows settings).map Item.q) = true := by
   unfold metaKids
